@@ -913,6 +913,13 @@ func getEventTime(etHeader string) time.Time {
 		if eventTime.IsZero() {
 			// the default didn't catch it, let's try a few other things
 			// is it all numeric? then try unix epoch times
+			if sec, nsec, ok := splitEpochDigits(etHeader); ok {
+				// more than ten digits, digits only: the first ten are seconds,
+				// the rest is a decimal fraction of a second. Exact integer
+				// arithmetic; float parsing is off by up to ~120ns and 19-digit
+				// values past 2262 do not even fit an int64.
+				return time.Unix(sec, nsec).UTC()
+			}
 			epochInt, err := strconv.ParseInt(etHeader, 0, 64)
 			if err == nil {
 				// it might be seconds or it might be milliseconds! Who can know!
@@ -939,6 +946,31 @@ func getEventTime(etHeader string) time.Time {
 		}
 	}
 	return eventTime.UTC()
+}
+
+// splitEpochDigits splits an all-digit epoch of more than ten digits into the
+// seconds given by its first ten digits and the nanoseconds given by the
+// remaining digits read as a decimal fraction (digits beyond nanosecond
+// resolution are dropped). ok is false for anything else.
+func splitEpochDigits(s string) (sec int64, nsec int64, ok bool) {
+	if len(s) <= 10 {
+		return 0, 0, false
+	}
+	for i := 0; i < len(s); i++ {
+		if s[i] < '0' || s[i] > '9' {
+			return 0, 0, false
+		}
+		switch {
+		case i < 10:
+			sec = sec*10 + int64(s[i]-'0')
+		case i < 19:
+			nsec = nsec*10 + int64(s[i]-'0')
+		}
+	}
+	for i := len(s); i < 19; i++ {
+		nsec *= 10
+	}
+	return sec, nsec, true
 }
 
 func makeDecoders(concurrency int) (*zstd.Decoder, error) {
